@@ -102,6 +102,8 @@ type ReqSpec struct {
 	RawCursor string `json:"raw_cursor,omitempty"`
 	// Forged: RawCursor carries a signature that does not verify; it must be refused
 	Forged bool `json:"forged,omitempty"`
+	// Synth: the kernel's answer to this (front-end) request is replaced by a synthesised outcome
+	Synth *Synth `json:"synth,omitempty"`
 	// Proto: "" = straight into the kernel queue, "http" / "grpc" = through that front end.
 	// Kind "RawHTTP": State = method, Id = path, Cron = raw query, Headers, Data = raw body.
 	// Kind "RawGRPC": Id = method name, Data = JSON of the request message (protojson), with
@@ -139,8 +141,12 @@ type Step struct {
 	Down int64   `json:"down,omitempty"`
 	Cfg  *Config `json:"cfg,omitempty"`
 
-	// quiesce
+	// quiesce / settle
 	Rounds int `json:"rounds,omitempty"`
+	// settle: Dt (above) is the clock advance of the first round when it is at least the
+	// signal timeout; Inner is the clock advance of the ticks inside a round (time passes while a
+	// background coroutine waits for the store)
+	Inner int64 `json:"inner,omitempty"`
 
 	// engine S: one store batch (JSON of []*t_aio.Transaction), observe the
 	// database through a second connection before statement ObserveAt
